@@ -664,6 +664,12 @@ func c16Text(c *Ctx, p *Prog) {
 				lowOne = true
 			}
 		}
+		// or what strings.TrimPrefix(name, "#") leaves (under HasPrefix(name, "#") that is name[1:])
+		if tc, isCall := cc.Args[0].(*ssa.Call); isCall && calleeName(&tc.Call) == "strings.TrimPrefix" && len(tc.Call.Args) == 2 && tc.Call.Args[0] == ssa.Value(gc.Params[0]) {
+			if lit, isLit := constString(tc.Call.Args[1]); isLit && lit == "#" {
+				lowOne = true
+			}
+		}
 		okParse = lowOne && okB && base == 16 && okS && (bits == 0 || bits >= 24)
 		pd = fmt.Sprintf("ParseUint(name[1:]: %v, base %d, bitSize %d)", lowOne, base, bits)
 		// the parsed value reaches NewHexColor through conversions only
@@ -913,6 +919,10 @@ func cssFormGuards(b *ssa.BasicBlock) (hasLen, hasHash bool) {
 		}
 		if strings.HasPrefix(g.L, "name[0]") && (g.R == "35" || g.R == "'#'") {
 			hasHash = true
+		}
+		// the rest after the one-byte prefix has six characters
+		if strings.HasPrefix(g.L, "len(strings.TrimPrefix(name,\"#\")") && g.R == "6" {
+			hasLen = true
 		}
 	}
 	for _, g := range rawGuardsAt(b) {
